@@ -2,7 +2,8 @@
    Python object semantics are MODELLED (Tree/Eq.v: dataclass == / hash, tuple vs list, bool-is-int); the facts about
    CPython this relies on are part of the trusted base and are exercised on real objects by the correspondence run. *)
 From Coq Require Import List NArith ZArith Bool String Ascii Lia.
-Require Import Base.Common Tree.Value Tree.Helpers Tree.HelperProofs Tree.Eq Gen.Schema Tree.C11Facts.
+Require Import Base.Common Gen.LexTable Lex.Model Cur.Model Tree.Value Tree.Helpers Tree.HelperProofs Tree.Eq Gen.Schema Gen.Static Tree.C11Facts
+               Parse.Prim Parse.Model Parse.Sweep.
 Import ListNotations.
 Open Scope string_scope.
 
@@ -36,6 +37,13 @@ Theorem C11_helpers_keep_kind_and_hashability : forall hs c c',
   no_list c = true -> forallb hop_arg_ok hs = true -> apply_hops hs c = Ok c' -> no_list c' = true /\ cls_of c' = cls_of c.
 Proof. exact apply_hops_no_list. Qed.
 
+(* 5. EVERY tree the parser model returns -- any parse function, dialect, token list and fuel -- is free of lists at every depth
+   (hence immutable and hashable by 3.), and so is every statement of a parsed script *)
+Theorem C11_parser_builds_no_list : forall fuel f d ts v rest, run fuel f d None ts = Ok (v, rest) -> no_list v = true.
+Proof. intros fuel f d ts v rest H. pose proof (RP_run fuel f d None ts I) as R. rewrite H in R. exact (proj1 R). Qed.
+Theorem C11_script_builds_no_list : forall n fuel d ts vs, statements_loop n fuel d ts [] = Ok vs -> Forall (fun v => no_list v = true) vs.
+Proof. intros n fuel d ts vs H. pose proof (RP_statements_loop n fuel d ts [] (Forall_nil _)) as R. rewrite H in R. exact R. Qed.
+
 (* non-vacuity *)
 Example C11_example :
   let t := VNode "ASTLimitClause" [("limit", VInt 10); ("offset", VNone)] in
@@ -50,4 +58,6 @@ Print Assumptions C11_eq_equivalence.
 Print Assumptions C11_equal_hash_equal.
 Print Assumptions C11_hashable_iff_no_list.
 Print Assumptions C11_helpers_keep_kind_and_hashability.
+Print Assumptions C11_parser_builds_no_list.
+Print Assumptions C11_script_builds_no_list.
 Print Assumptions C11_example.
